@@ -338,6 +338,7 @@ pub fn route_fmt_kind(route: &str, format: &str) -> (String, &'static str) {
         "stdin-explicit" | "explicit" => (format.to_string(), "stdin"),
         "file-other-auto" => ("auto".to_string(), "other"),
         "file-other-explicit" => (format.to_string(), "other"),
+        "file-wrong-ext-explicit" => (format.to_string(), if format == "gambit" { "json" } else { "efg" }),
         "file-json" => ("auto".to_string(), "json"),
         "file-efg" => ("auto".to_string(), "efg"),
         _ => ("auto".to_string(), if format == "gambit" { "efg" } else { "json" }),
